@@ -21,7 +21,7 @@ ASSUMPTIONS = [
 SHARD_LIMIT = {"quick": 900, "thorough": 7200}
 
 TEXTS = ["new", "<&>\"q'", "\xe9√", "a\nb", "x]]>y", "On"]
-NUMS = ["7", "7.25", "-2.5", "1:30", "1;30", "1 30", "-0:30:00", "12:30:36", 3.5, ".5", "1:02:03.05", "-20:00:00.07"]
+NUMS = ["7", "7.25", "-2.5", "1:30", "1;30", "1 30", "-0:30:00", "12:30:36", 3.5, ".5", "1:02:03.05", "-20:00:00.07", 1.5e-07, -2.5e-05]  # the last two: Python floats whose repr has an exponent
 # number properties in every format family (the client's view shows what the DEVICE renders with its format)
 MORE_NUMBER_VARIANTS = ("number-sexa3", "number-sexa5", "number-sexa8", "number-sexa9", "number-g", "number-d")
 BLOB_SIZES = [0, 1, 3, 255, 256, 1023, 1024, 1025]
@@ -55,6 +55,9 @@ def shards(tier, seed):
                 sh.append((tier, seed, variant, ndev, depth))
     for variant in MORE_NUMBER_VARIANTS:
         sh.append((tier, seed, variant, 2, 1))
+    # write-only properties are written like read-write ones
+    for variant in ("text", "number-printf", "switch-AtMostOne", "blob"):
+        sh.append((tier, seed, variant, 2, 1, "wo"))
     return sh
 
 
@@ -301,8 +304,10 @@ def short(assignment):
     return [tuple(x) for x in assignment]
 
 
-def cases(tier, variant, ndev, depth):
+def cases(tier, variant, ndev, depth, perm="rw"):
     p = dict(variant=variant, vec_enabled=True, grp_enabled=True, depth=depth, ndev=ndev, ngroups=2)
+    if perm != "rw":
+        p["perm"] = perm
     specs = DP.deployment(**p)
     kind = variant.split("-")[0]
     for di in range(ndev):
@@ -335,7 +340,8 @@ def modes(tier, nbytes_hint):
 
 
 def run_shard(shard):
-    tier, seed, variant, ndev, depth = shard
+    tier, seed, variant, ndev, depth = shard[:5]
+    perm = shard[5] if len(shard) > 5 else "rw"
     res = {"states": 0, "transitions": 0, "executions": 0, "violations": [], "samples": [], "counters": {}}
     sig = {}
 
@@ -350,7 +356,7 @@ def run_shard(shard):
     n = 0
     from mc.core.e2e import HandshakeFailed
 
-    for p, target, assignment in cases(tier, variant, ndev, depth):
+    for p, target, assignment in cases(tier, variant, ndev, depth, perm):
         sent = None
         try:
             execute(p, target, assignment, "whole", seed)
@@ -380,6 +386,8 @@ def run_shard(shard):
         res["counters"]["writes"] = res["counters"].get("writes", 0) + 1
     # short histories through ONE client vector object: a later submit must not re-send earlier elements
     p0 = dict(variant=variant, vec_enabled=True, grp_enabled=True, depth=depth, ndev=ndev, ngroups=2)
+    if perm != "rw":
+        p0["perm"] = perm
     seqs, want = seq_cases(variant)
     try:
         for si, steps in enumerate(seqs):
